@@ -49,17 +49,17 @@ type rePattern struct {
 
 var rePatterns = map[string]rePattern{
 	"(?s)^(([!#$%&'*+\\-.^_\\x60|~a-zA-Z0-9]+)/([!#$%&'*+\\-.^_\\x60|~a-zA-Z0-9]+)).*$": {3, false},
-	"^HTTP/1\\.[0-9] ([0-9]{3}).*\\n$":                 {1, false},
-	"^(?i:content-type):[ \\t\\r]*(.*?)[ \\t\\r]*\\n$": {1, false},
-	"^(?i:location):[ \\t\\r]*(.*?)[ \\t\\r]*\\n$":     {1, false},
-	"(?s)^(.*?)([ \\n]*)$":                             {2, true},
-	"(?s)^([ \\n]*)(.*)$":                              {2, true},
-	"^=>[ \\t]*(.*?)(?:[ \\t]+(.*))?$":                 {2, false},
-	"^#[ \\t]+(.*)$":                                   {1, false},
-	"^##[ \\t]+(.*)$":                                  {1, false},
-	"^###[ \\t]+(.*)$":                                 {1, false},
-	"^\\* (.*)$":                                       {1, false},
-	"^> ?(.*)$":                                        {1, false},
+	"^HTTP/1\\.[0-9] ([0-9]{3}).*\\n$":                                                  {1, false},
+	"^(?i:content-type):[ \\t\\r]*(.*?)[ \\t\\r]*\\n$":                                  {1, false},
+	"^(?i:location):[ \\t\\r]*(.*?)[ \\t\\r]*\\n$":                                      {1, false},
+	"(?s)^(.*?)([ \\n]*)$":                                                              {2, true},
+	"(?s)^([ \\n]*)(.*)$":                                                               {2, true},
+	"^=>[ \\t]*(.*?)(?:[ \\t]+(.*))?$":                                                  {2, false},
+	"^#[ \\t]+(.*)$":                                                                    {1, false},
+	"^##[ \\t]+(.*)$":                                                                   {1, false},
+	"^###[ \\t]+(.*)$":                                                                  {1, false},
+	"^\\* (.*)$":                                                                        {1, false},
+	"^> ?(.*)$":                                                                         {1, false},
 }
 
 // regexpPattern finds the constant pattern behind a *regexp.Regexp operand.
